@@ -12,7 +12,7 @@ macro_rules! cmp_harness {
     ($name:ident, $pred:ident, $functor:expr, $lt:ty, $lc:expr, $rt:ty, $rc:expr, $op:tt) => {
         #[kani::proof]
         #[kani::stub(alloc::fmt::format, stub_format)]
-        #[kani::unwind(4)]
+        #[kani::unwind(3)]
         fn $name() {
             let l: $lt = kani::any();
             let r: $rt = kani::any();
